@@ -10,9 +10,8 @@ import (
 
 func oracleFast(probes [][]byte) Oracle {
 	return Oracle{Name: "fast", Fn: func(w *World) *Violation {
-		if !w.Cfg.Fast {
-			return nil
-		}
+		// the read comparisons hold for every instance: one that runs with the index disabled must not consult
+		// the (then unmaintained) persisted index at all; only the inspection of the raw index needs Fast
 		t, m := w.Tree, w.M
 		for _, k := range probes {
 			g, err := t.Get(k)
@@ -108,7 +107,7 @@ func oracleFast(probes [][]byte) Oracle {
 		// persisted index after a commit or an open
 		switch w.LastOp.Kind {
 		case OpSave, OpReopen, OpLoadVersion, OpLVFO, OpImport, OpDelFrom:
-			if m.Latest == 0 {
+			if m.Latest == 0 || !w.Cfg.Fast {
 				return nil
 			}
 			raw := scanRaw(w.visibleDump())
